@@ -26,7 +26,7 @@ ASSUMPTIONS = [
     "any exception of the reader = reject (type is C14's business)",
     "the validator is the property's rule list written independently; its own sanity is checked per edit (the named rule must be the one it reports)",
 ]
-TIMEOUT = {"quick": 1800, "thorough": 6 * 3600}
+TIMEOUT = {"quick": 900, "thorough": 6 * 3600}
 NSH = 16
 
 EDIT_NAMES = [
